@@ -86,6 +86,11 @@ class C08(Prop):
 
     # ------------------------------------------------------------------ setup
     def setup(self, tier, rng):
+        # one scratch parent per run, removed in teardown() even when pool workers are terminated mid-case
+        self.teardown()
+        self.scratch = tempfile.mkdtemp(prefix="pfbverif.c08.")
+        self._scratch_owner = os.getpid()
+        self._pool = None
         self._nc = {}
         self._ref = {}
         um = os.umask(0)
@@ -95,10 +100,21 @@ class C08(Prop):
         self.old_gid = 4242 if self.root_user else os.getegid()
         self._strict = None
 
+    def teardown(self):
+        d = getattr(self, "scratch", None)
+        if d and getattr(self, "_scratch_owner", None) == os.getpid():
+            shutil.rmtree(d, ignore_errors=True)
+            self.scratch = None
+
     def env(self):
-        if not hasattr(self, "dflt"):
+        if not getattr(self, "scratch", None):
             self.setup("quick", None)
+            import atexit
+            atexit.register(self.teardown)
         return self
+
+    def _mkroot(self):
+        return os.path.realpath(tempfile.mkdtemp(prefix="r", dir=self.env().scratch))
 
     def strict(self):
         """Which exception policy does the implementation have?  Probed once on the real code:
@@ -175,7 +191,7 @@ class C08(Prop):
         key = (case["old"]["size"],)
         if key not in self._ref:
             c = dict(case, kind="crash", k=10 ** 9, cap=None, stale=None)
-            root = tempfile.mkdtemp(prefix="pfbverif.c08.")
+            root = self._mkroot()
             try:
                 path = self._populate(root, c)
                 G.run_single(self._entry(c, path), root, dict(kind=None))
@@ -243,10 +259,20 @@ class C08(Prop):
 
     def gen_case(self, rng, i, tier):
         self.env()
+        # Random configurations are drawn into a pool first (each needs one recording run on the real code
+        # to learn its number of call boundaries); the cases vary crash point / fault / schedule over the pool.
+        if getattr(self, "_pool", None) is None or i == 0:
+            n = 160 if tier == "thorough" else 40
+            self._pool = [self._rand_config(rng) for _ in range(n)]
+            self._spool = []
+            for _ in range(n // 2):
+                c = self._rand_sched(rng)
+                c.pop("sched"), c.pop("kind")
+                self._spool.append(c)
         r = rng.random()
         if r < 0.3:
-            return self._rand_sched(rng)
-        cfg = self._rand_config(rng)
+            return self._rand_sched(rng, rng.choice(self._spool))
+        cfg = rng.choice(self._pool)
         n = self.ncalls(cfg)
         k = rng.randint(0, n)
         if r < 0.62:
@@ -309,7 +335,7 @@ class C08(Prop):
         self.env()
         if case["kind"] == "strace":
             return self._run_strace(case)
-        root = tempfile.mkdtemp(prefix="pfbverif.c08.")
+        root = self._mkroot()
         try:
             path = self._populate(root, case)
             envd = dict(dflt="%04o" % self.dflt, egid=os.getegid(), old_gid=self.old_gid)
@@ -333,7 +359,7 @@ class C08(Prop):
 
     def _run_strace(self, case):
         """the unpatched interpreter running bin/tidy-imports --replace under strace"""
-        root = os.path.realpath(tempfile.mkdtemp(prefix="pfbverif.c08."))
+        root = self._mkroot()
         try:
             path = self._populate(root, case)
             log = os.path.join(root, ".strace")
